@@ -142,8 +142,11 @@ def run(ctx):
                     if o.res.cls == '0':
                         why = correct(sc, o)
                         if why:
-                            kf = [known_sites.get(s) for s in sites]
-                            if all(kf) and ctx.open_finding(kf[0]):
+                            # attributable to a recorded finding iff every failed step is a recorded silent site or one of the two
+                            # steps the property itself tolerates (xattr, ownership), with at least one recorded site among them
+                            tolerated = {'finXattr', 'finChown'}
+                            kf = [known_sites.get(s) for s in sites if s not in tolerated]
+                            if kf and all(kf) and all(ctx.open_finding(k) for k in kf):
                                 for k in set(kf):
                                     ctx.known_finding(k, ctx.open_finding(k)['what'])
                             else:
